@@ -11,7 +11,7 @@ META = {
                   "at every point and every choice of <= 3 failing system calls the destination is the previous file or a complete new archive, "
                   "and refutes the two mutant designs (direct write, copy+remove) and the code's own deviation (compact skips unreadable files). "
                   "Binding: the real worker process is run under strace for V1..V4 x dest pre-states {absent, archive, edited in place, 0-byte placeholder, garbage, "
-                  "read-only, directory} x operations {build, compact (clean / dirty session), rebuild_archive, OpenOptions::create, SFileCreateArchive}; "
+                  "read-only, directory, hard-linked elsewhere (nlink 2), symlink to a file} x operations {build, compact (clean / dirty session), rebuild_archive, OpenOptions::create, SFileCreateArchive}; "
                   "SIGKILL at the entry of every system call of the operation, EIO at every system call, ENOSPC (one-shot and persistent) at every "
                   "space-consuming call, RLIMIT_FSIZE limits, and (EIO, then kill/EIO on the error path) pairs are injected; every strace log is "
                   "translated into system-call events and replayed by TLC on the FS layer of the specification together with what the destination "
@@ -31,6 +31,7 @@ NEGATIVE = [
     ("_placeholder", "DestPrevOrNew", "mutant design: an empty file at dest is treated as a placeholder and filled in place"),
     ("_rmonerr", "DestPrevOrNew", "mutant design: rebuild removes the target path when the build fails"),
     ("_probe", "DestPrevOrNew", "mutant design: create() probes writability with File::create(dest) before building"),
+    ("_keepinode", "DestPrevOrNew", "mutant design: compact of a hard-linked archive copies the temp over dest instead of renaming"),
     ("_rebuildskip", "DestPrevOrNew", "deviation (the code before 9d57560): rebuild skips a source file whose read fails and still replaces the target"),
     ("_copy", "DestPrevOrNew", "mutant design: persist replaced by copy + remove"),
     ("_ascoded", "DestPrevOrNew", "deviation: compact() skips a source file whose read fails (I/O errors until 131a1c3; non-I/O errors still)"),
@@ -78,7 +79,7 @@ def annotate(bad, trace):
 
 
 def run(ctx, cases_override=None):
-    ctx.mc("MC_AtomicWrite", timeout=600, allow_uncovered=("B_CopyOpen", "B_Copy", "B_CopyRm", "C_Flush", "X_Probe", "X_ProbeClose"))
+    ctx.mc("MC_AtomicWrite", timeout=600, allow_uncovered=("B_CopyOpen", "B_Copy", "B_CopyRm", "C_Flush", "X_Probe", "X_ProbeClose", "C_KeepOpen", "C_KeepCopy"))
     refuted = []
     for suffix, inv, meaning in NEGATIVE:
         rc, text = ctx.tlc("MC_AtomicWrite", "MC_AtomicWrite" + suffix, workers=2, timeout=300)
